@@ -350,6 +350,26 @@ def cases(tier, seed):
             }
             for use, body in uses.items():
                 yield {"kind": "multiline_subject:%s:%s" % (name, use), "files": [("subject.pn", lead + pre + body)]}
+    # chains of one operator with an operand of another type at a known position: the diagnostic must cover the operator that
+    # joins the offending operand (or the operand itself), not an earlier one, also when the chain runs over several lines
+    for op in ("|", "&", "^", "+", "-", "*", "/", "%"):
+        for n_ops in (3, 4, 6):
+            for j in range(1, n_ops):
+                for sep in (" ", "\n\t\t"):
+                    head = "fn main()\n{\n\tvar a: u32 = 1;\n\tvar b: u32 = 2;\n\tvar w: u16 = 3;\n\tvar r: u32 = "
+                    text = head
+                    for k in range(n_ops):
+                        if k:
+                            if k == j:
+                                f_start = len(text) + len(sep)
+                            text += sep + op + " "
+                        text += "w" if k == j else ("a" if k % 2 == 0 else "b")
+                        if k == j:
+                            f_end = len(text)
+                    text += ";\n}\n"
+                    yield {"kind": "operator_chain:%s" % ("bitwise" if op in "|&^" else "shift" if op == "<<" else "arithmetic"),
+                           "files": [("chain.pn", text)],
+                           "fault": {"file": "chain.pn", "start": f_start, "end": f_end, "codes": [551], "kind": "operand of another type in a chain"}}
     # dependency graphs: cyclic ones are rejected with E413/E415/E416, whose text names members of the cycle
     from . import c11
     for i in range(200 if quick else 6000):
